@@ -63,7 +63,7 @@ def protected_bytes(a):
             {f: (open(f, 'rb').read() if os.path.exists(f) else b'') for fs in a.parity_files for f in fs})
 
 
-def run_case(ctx, a, paths, cmd, opts, expect, desc, replay, model_cmd=None, after_check=True, pre_hook=None):
+def run_case(ctx, a, paths, cmd, opts, expect, desc, replay, model_cmd=None, after_check=True, pre_hook=None, finding_key=None):
     """expect: 'refuse' | 'proceed' | None (no independent expectation: model and tool must simply agree).
     Returns the observation."""
     d = L.presummary(a, paths, cmd, opts)
@@ -107,7 +107,7 @@ def run_case(ctx, a, paths, cmd, opts, expect, desc, replay, model_cmd=None, aft
         ctx.proceeds += 1
         if failing:
             ctx.viol('override', 'with the override / without the trigger the command still fails (%s): `%s %s` rc=%d: %s'
-                     % (desc, cmd, ' '.join(opts), o.rc, o.r.err[-200:].replace('\n', ' | ')), rep)
+                     % (desc, cmd, ' '.join(opts), o.rc, o.r.err[-200:].replace('\n', ' | ')), rep, finding_key=finding_key)
         elif after_check and cmd == 'sync':
             r2 = a.run('check')
             if r2.rc != 0:
@@ -314,7 +314,14 @@ def scenario_sync_trigger(ctx, seed, kind, where, variant, pending, shape):
                 o = run_case(ctx, a, paths, 'diff', [], None, desc + ' diff', replay)
                 if o.rc != 2:
                     ctx.viol('diff', 'diff on a triggered array does not end with "sync needed" (rc %d) (%s)' % (o.rc, desc), replay)
-            o = run_case(ctx, a, paths, 'sync', ov[seed % len(ov)], 'proceed', desc + ' override', replay)
+            # a parity file whose size is not a multiple of the block size cannot even be opened when the content file
+            # records no split size (parity.c:228-236): the forced rebuild does not get through either
+            fk = 'F-C14-unaligned-parity-size-blocks-forced-rebuild' if (kind == 'parity' and variant == 'one_byte_short') else None
+            o = run_case(ctx, a, paths, 'sync', ov[seed % len(ov)], 'proceed', desc + ' override', replay, finding_key=fk)
+            if fk and o.rc != 0:
+                # the documented way out: remove the damaged parity file, then force the rebuild
+                os.unlink(a.parity_files[where][0])
+                run_case(ctx, a, paths, 'sync', ['-F'], 'proceed', desc + ' override after deleting the unaligned parity file', replay)
         else:
             o = run_case(ctx, a, paths, 'sync', [], 'proceed', desc + ' (no trigger expected)', replay)
             cross_check_scan(ctx, o, desc)
@@ -335,7 +342,7 @@ def scenario_conf(ctx, seed, kind, where, pending, shape):
     hs = 8 if kind == 'hashsize_recorded' else None
     a = new_array(ctx, rng, nd=nd, np_=np_, ncontent=nc, hashsize=hs)
     paths = L.Paths(a)
-    desc = '%s@%d%s nd=%d np=%d nc=%d' % (kind, where, '+pending' if pending else '', nd, np_, nc)
+    desc = 'conf:%s@%d%s nd=%d np=%d nc=%d' % (kind, where, '+pending' if pending else '', nd, np_, nc)
     replay = {'seed': seed, 'kind': kind, 'where': where, 'pending': pending, 'shape': shape}
     try:
         if pending:
@@ -345,7 +352,7 @@ def scenario_conf(ctx, seed, kind, where, pending, shape):
         if kind == 'blocksize':
             edit_conf(a, lambda ls: [('blocksize %d' % (2 << where)) if l.startswith('blocksize') else l for l in ls])
         elif kind == 'hashsize_recorded':        # content has a 'y' record (8); configuration goes back to the default / 12
-            newv = [None, 12, 16][where % 3]
+            newv = [None, 4, 16][where % 3]
             edit_conf(a, lambda ls: [l for l in ls if not l.startswith('hashsize')] + (['hashsize %d' % newv] if newv else []))
         elif kind == 'hashsize_default':         # content written with the default (no 'y' record); configuration says 8
             edit_conf(a, lambda ls: ls + ['hashsize 8'])
